@@ -227,9 +227,18 @@ def gen_lineage(rng, T, p, ids, P):
             if rng.random() < 0.5:
                 e = ('score', rng.choice(['Completeness', 'bootstrap', 'TreeCertainty']), rng.choice(SCORE_LITERALS))
             else:
-                e = ('prop', rng.choice(['Note', 'Color', 'Source']), rng.choice(['x', 'y z', '42', 'A&B', 'x<y>z', "O'Neil", 'say "hi"', 'gr\u00fcn', '', 'kinase, putative ', ' x', ' ', '007', '1e3']))
+                e = ('prop', rng.choice(['Note', 'Color', 'Source'] + (ATTR_LIKE_NAMES if rng.random() < 0.25 else [])), rng.choice(['x', 'y z', '42', 'A&B', 'x<y>z', "O'Neil", 'say "hi"', 'gr\u00fcn', '', 'kinase, putative ', ' x', ' ', '007', '1e3']))
             subs.insert(rng.randint(0, len(subs)), ('ann', e))
     return ('grp', written, hid, label, subs)
+
+# property names that coincide with attributes of pyham's HOG objects: they are names like any other (r13-C19a: `hog[name]`
+# falling back to the object's attributes)
+ATTR_LIKE_NAMES = ['genome', 'og', 'children', 'parent', 'hog_id', 'duplications', 'score']
+
+def taxid_of(name):
+    """the NCBITaxId written for a species: a handful of values, so that different species regularly share one (strains, breeds,
+    sub-species; r13-C02b: genomes compared by their taxon id)"""
+    return str(9600 + sum(map(ord, name)) % 5)
 
 DEFAULT_P = dict(loss=0.25, dup=0.3, elide=0.5, subid=0.3, label=0.3, ann=0.25, loft=0.15, unary_trees=0.1, idless_top=0.08, species_split=0.1, dbsplit=0.1, unnamed_root=0.08, notes=0.12, wrap=0.1, latin1=0.1, subid_clash=0.15, late_species=0.12, xref_is_other_id=0.2, zero_pad_top=0.1)
 
@@ -1058,13 +1067,13 @@ def orthoxml(species, groups, newlines=True, dbsplit=None, style=None):
     for si, (name, genes) in enumerate(species):
         if si in (style.get('late_species') or ()):
             # this <species> element is written AFTER the <groups> section (none of its genes is referenced)
-            late += '<species name="%s" NCBITaxId="1"><database name="d" version="1"><genes>' % xml_escape(name) + nl
+            late += '<species name="%s" NCBITaxId="%s"><database name="d" version="1"><genes>' % (xml_escape(name), taxid_of(name)) + nl
             for gid, xr in genes:
                 late += '<gene id="%s"%s/>' % (xml_escape(gid), ''.join(' %s="%s"' % (k, xml_escape(v)) for k, v in xr)) + nl
             late += '</genes></database></species>' + nl
             continue
         blocks = [genes[:len(genes) // 2], genes[len(genes) // 2:]] if (dbsplit and len(genes) >= 2) else [genes]
-        s += '<species name="%s" NCBITaxId="1">' % xml_escape(name)
+        s += '<species name="%s" NCBITaxId="%s">' % (xml_escape(name), taxid_of(name))
         for bi, block in enumerate(blocks):
             s += '<database name="d%d" version="1"><genes>' % bi + nl
             for gj, (gid, xr) in enumerate(block):
